@@ -324,6 +324,31 @@ pub fn run(ctx: &mut Ctx) -> (&'static str, String, bool) {
                     }
                 }
             }
+            // colour codes (^0..^9 except ^8) and other caret pairs inside a segment do not change the codepage
+            let stride = if t.core.len() > 1000 { 211 } else { 7 };
+            for (i, (bytes, ch)) in t.core.iter().enumerate() {
+                if i % stride != 0 {
+                    continue;
+                }
+                let (b2, ch2) = &t.core[(i * 7 + 3) % t.core.len()];
+                for mid in ["^0", "^1", "^7", "^9", "^^", "^v", "^h", "^x"] {
+                    p.evaluations += 1;
+                    let mut input = vec![b'^', t.letter as u8];
+                    input.extend_from_slice(bytes);
+                    input.extend_from_slice(mid.as_bytes());
+                    input.extend_from_slice(b2);
+                    let expect = format!("{ch}{mid}{ch2}");
+                    match guarded(|| to_lossy_string(&input).to_string()) {
+                        Ok(s) if s == expect => {},
+                        Ok(s) => p.violation(
+                            format!("C10/decode-table/{}/after-{}", t.letter, mid),
+                            format!("bytes {} must decode to {:?} ({} stays in effect after {mid}), decoded as {:?}", hex(&input), expect, t.name, s),
+                            json!({"input_hex": hex(&input)}),
+                        ),
+                        Err(pn) => p.violation("C10/decode-panic", format!("to_lossy_string({}) panicked: {pn}", hex(&input)), json!({"input_hex": hex(&input)})),
+                    }
+                }
+            }
             // also without any marker: Latin-1 default
             if t.letter == 'L' {
                 for (bytes, ch) in &t.core {
